@@ -95,9 +95,28 @@ async def diff_case(ctx, case: dict) -> None:
     older, newer = case["pair"]
     cross_major = older.startswith("1") and newer.startswith("2")
     straddle = newer == "2.2" and older in ("2.0", "2.1")
-    g1, t1 = new_gateway(older)
-    g2, t2 = new_gateway(newer)
+    from .. import harness
+
+    harness.CONFIG_EXTRA.clear()
+    harness.CONFIG_EXTRA.update(case.get("config_extra") or {})
+    try:
+        g1, t1 = new_gateway(None if case.get("report_first") else older)
+        g2, t2 = new_gateway(None if case.get("report_first") else newer)
+    finally:
+        harness.CONFIG_EXTRA.clear()
     s1, s2 = Stepper(g1, t1), Stepper(g2, t2)
+    if case.get("report_first"):
+        # each gateway learns ITS version from its own first report (the one step that necessarily differs); what the
+        # controller writes in reaction to it is compared like every other step
+        texts = {"1.4": "1.4.1", "1.5": "1.5.0", "2.0": "2.0.0", "2.1": "2.1.1", "2.2": "2.2.0"}
+        r1 = await s1.rx(f"0;255;3;0;2;{texts[older]}\n")
+        r2 = await s2.rx(f"0;255;3;0;2;{texts[newer]}\n")
+        w1, w2 = t1.take_writes(), t2.take_writes()
+        ctx.clause("first-report-step")
+        both_2x = older.startswith("2") and newer.startswith("2")
+        if (r1[0], w1) != (r2[0], w2) and (both_2x or (older.startswith("1") and newer.startswith("1"))):
+            ctx.violation("writes-differ", f"{older} vs {newer}: the first version report ended {r1[0]} / {r2[0]} and wrote "
+                                           f"{w1} vs {w2}", case)
     steps_done = 0
     for index, op in enumerate(case["steps"]):
         if op[0] == "rx":
@@ -258,7 +277,20 @@ def cases(ctx):
                     b = with_ack(b)
                 yield {"pair": [older, newer], "steps": STATES["child"][:2] + [a, b, ["rx", f"1;0;2;{k // 4 % 2};2;\n"]]}
     ctx.exhaustive["type-table-and-2-step-cases"] = count
+    from ..harness import unknown_options
     from ..histories import HistoryGen, dictionary_payloads
+
+    # the same comparison with every Config option this harness does not know set to a non-default value (both gateways)
+    for extra in unknown_options():
+        for older, newer in PAIRS:
+            syms = symbols_for(older, newer)
+            for state, prefix in STATES.items():
+                if not ctx.mine():
+                    continue
+                steps = list(prefix) + [["rx", "0;255;3;0;2;" + {"1.4": "1.4", "1.5": "1.5.1", "2.0": "2.0.0", "2.1": "2.1.1",
+                                                                   "2.2": "2.2.0"}[older] + "\n"]] if False else list(prefix)
+                yield {"pair": [older, newer], "steps": steps + syms[:: 7] + [["rx", "1;0;1;0;2;probe\n"]], "config_extra": extra}
+                yield {"pair": [older, newer], "steps": steps + syms[3:: 11], "config_extra": extra, "report_first": True}
 
     # dictionary payloads (string constants of the handler modules) as the value of every value type of the older protocol
     candidates = [c for c in dictionary_payloads()[: ctx.pick(80, 600)] if ";" not in c]
@@ -273,6 +305,9 @@ def cases(ctx):
                     steps.append(["rx", f"1;0;2;0;{t};\n"])
             yield {"pair": [older, newer], "steps": steps}
 
+    for older, newer in PAIRS:  # gateways that learn their version from a report (default configuration)
+        if ctx.mine():
+            yield {"pair": [older, newer], "steps": list(STATES["child"]) + symbols_for(older, newer)[5:: 9], "report_first": True}
     for i in range(ctx.pick(1500, 600000) // ctx.shard_count):
         older, newer = PAIRS[i % len(PAIRS)]
         gen = HistoryGen(rng, older)
